@@ -11,7 +11,7 @@ from ptstat import AnalysisError, relang, peg
 from ptstat.symval import SymObj, Phi, SymRaise
 from ptstat.world import World
 from spec import grammar_gen as G
-from .common import fsite, raises, folder, _s
+from .common import fsite, raises, folder, _s, public_entry_points
 
 EXPLANATION = (
     "K10: formulas.formula_grammar is interpreted from the current source with the pyparsing combinators bound to a "
@@ -334,6 +334,7 @@ def run(ctx):
         I.module_cache[("core", "PUBLIC_TABLE")] = saved_public
     ctx.floor("R9", 20)
 
+    public_entry_points(ctx, "RW", [("formula", "formulas.formula")])
     # ---- R7 the grammar looks symbols up in its own table ---------------------------------------------------------
     w2, gram2 = build(ctx)
     f2 = w2.I.call(w2.I.global_name("formulas", "formula"), ["Fe[56]{2+}2O3"], {"table": w2.table})
